@@ -379,7 +379,11 @@ func runC03(env *core.Env) {
 	if len(samples.list) == 0 {
 		samples.add("no torn state produced")
 	}
+	// the write cut short by the kernel (disk full / file size limit) with the process still alive to react: whatever
+	// it does then (error out, roll back), everything acknowledged before must still be there
+	shortCov := shortWritePhase(env, "C03", f.SA, []crashCmd{menu[0], menu[3], menu[4], menu[8]})
 	env.Finish("model_checking", map[string]interface{}{
+		"short_write_phase": shortCov,
 		"states": len(seen), "transitions": crashStates + tornStates + followUps, "traces_validated_against_impl": crashStates,
 		"samples": samples.list, "exhaustive": exhaustive && notLanded == 0, "crash_depth": maxDepth,
 		"crash_states": crashStates, "torn_states": tornStates, "distinct_states": len(seen), "states_checked": statesChecked,
